@@ -7,7 +7,7 @@
    Division by zero is an explicit result (C02_DivByZero), never a number. *)
 From Coq Require Import ZArith.
 From mathcomp Require Import all_ssreflect all_algebra.
-From DuneV Require Import Params_gen C02_Model C02_Spec C02_Proofs C02_Proofs_Invert C02_Proofs_Closed C02_Proofs_Diag C02_Proofs_NoPivot C02_Proofs_Audit C02_Proofs_Deep C02_Proofs_Prin C02_Proofs_Limit.
+From DuneV Require Import Params_gen C02_Model C02_Spec C02_Proofs C02_Proofs_Invert C02_Proofs_Closed C02_Proofs_Diag C02_Proofs_NoPivot C02_Proofs_Audit C02_Proofs_Deep C02_Proofs_Prin C02_Proofs_Limit C02_Proofs_Alias.
 Import GRing.Theory.
 Local Open Scope ring_scope.
 
@@ -187,6 +187,14 @@ Theorem C02_objects_after : forall n (o : c02_objs F) piv, (0 < n)%N -> c02_wfm 
       end].
 Proof. exact (objects_after absr0). Qed.
 
+(* ---- aliasing: A.solve(x, x), the right-hand side IS the result vector; c02_solve_aliased is THE CODE AS IT IS.
+   For every size except 2 and 3 the call is the plain solve (so C02_solve_sound / C02_solve_pivot apply to it);
+   for n = 2 and n = 3 it is REFUTED below (C02_solve_aliased_refuted, known finding F-C02-3, fixes/C02-2.patch — the
+   patched code is c02_solve itself). *)
+Theorem C02_solve_aliased_same : forall (A : seq (seq F)) b piv, c02_rows A != 2%N -> c02_rows A != 3%N ->
+  c02_solve_aliased ops A b piv = c02_solve ops A b piv.
+Proof. exact (@solve_aliased_same F absr). Qed.
+
 End Statements.
 
 Print Assumptions C02_solve_sound.
@@ -217,6 +225,7 @@ Print Assumptions C02_lu_factorisation.
 Print Assumptions C02_nonsquare.
 Print Assumptions C02_default_arguments.
 Print Assumptions C02_objects_after.
+Print Assumptions C02_solve_aliased_same.
 Print Assumptions C02_invert_twice.
 Print Assumptions C02_checked_singular.
 Print Assumptions C02_checked_regular.
@@ -274,6 +283,18 @@ Example C02_ex_deepening_F7 :
   [/\ c02_ex_obs1 (c02_determinant (c02_fops c02_ex_abs7) c02_ex_S false) = C02_Ok 0%N,
       c02_ex_obs1 (c02_determinant (c02_fops c02_ex_abs7) (c02_ex_m [:: [:: 1; 2; 3]; [:: 4; 5; 6]]%N) true) = C02_FMatrixError
     & c02_ex_obsv (c02_solve_dflt (c02_fops c02_ex_abs7) c02_ex_A (c02_ex_v [:: 1; 2; 3; 4]%N)) = C02_Ok [:: 1; 0; 6; 1]%N].
+Proof. by vm_compute. Qed.
+(* REFUTED for n = 2, 3: with x aliasing b the code as it is does not return the solution.  Over 'F_7:
+   A = [[1,2],[3,5]], b = (1,1): the solution is (4,2) (c02_solve, proved correct), the aliased call gives (4,4);
+   A = [[1,2,0],[3,5,1],[0,1,1]], b = (1,2,3): (4,2,1) versus (4,3,4).  Replayed on the C++ code by cases
+   `7 F solvealias 2 1 1 2 3 5 1 1` and `7 F solvealias 3 1 1 2 0 3 5 1 0 1 1 1 2 3` (corpus). *)
+Theorem C02_solve_aliased_refuted :
+  exists A b, c02_wfm 2 A /\ c02_ex_obsv (c02_solve (c02_fops c02_ex_abs7) A b true) = C02_Ok [:: 4; 2]%N
+              /\ c02_ex_obsv (c02_solve_aliased (c02_fops c02_ex_abs7) A b true) = C02_Ok [:: 4; 4]%N.
+Proof. by exists (c02_ex_m [:: [:: 1; 2]; [:: 3; 5]]%N), (c02_ex_v [:: 1; 1]%N); vm_compute. Qed.
+Example C02_ex_solve_aliased3_F7 :
+  c02_ex_obsv (c02_solve (c02_fops c02_ex_abs7) (c02_ex_m [:: [:: 1; 2; 0]; [:: 3; 5; 1]; [:: 0; 1; 1]]%N) (c02_ex_v [:: 1; 2; 3]%N) true) = C02_Ok [:: 4; 2; 1]%N /\
+  c02_ex_obsv (c02_solve_aliased (c02_fops c02_ex_abs7) (c02_ex_m [:: [:: 1; 2; 0]; [:: 3; 5; 1]; [:: 0; 1; 1]]%N) (c02_ex_v [:: 1; 2; 3]%N) true) = C02_Ok [:: 4; 3; 4]%N.
 Proof. by vm_compute. Qed.
 (* the instance run by the correspondence check (integers mod 7) computes the same on this input *)
 Example C02_ex_solve_zp7 :
